@@ -3,6 +3,12 @@
 // order, so QUIC connection ids, TLS randoms, ephemeral keys and signature nonces — and everything whose size or map
 // order depends on them — replay exactly.
 //
+// Two more sources are pinned by Install because no reader reaches them: (1) TLS 1.3's default key share is the hybrid
+// X25519MLKEM768, and ML-KEM key generation draws from the runtime's internal DRBG, not from Config.Rand / rand.Reader — the
+// transcript, hence the CertificateVerify signature and its DER length (70..72 bytes), hence packet sizes and pacing,
+// would differ from execution to execution; GODEBUG tlsmlkem=0 leaves X25519, which reads rand.Reader. (2) math/rand's
+// global generator (the QUIC transport paces its hole-punch packets with rand.Intn): GODEBUG randseednop=0 + rand.Seed.
+//
 // crypto/internal/randutil.MaybeReadByte reads ONE byte from a caller-supplied reader with probability 1/2 (from a
 // generator nobody can seed) precisely to stop callers from relying on a fixed stream. One-byte reads therefore do
 // not advance the stream here.
@@ -12,7 +18,10 @@ import (
 	crand "crypto/rand"
 	"encoding/binary"
 	"io"
+	mrand1 "math/rand"
 	mrand "math/rand/v2"
+	"os"
+	"strings"
 	"sync"
 )
 
@@ -40,7 +49,33 @@ func Install(seed uint64) (restore func()) {
 	copy(k[8:], "verifsim/simrand")
 	prev := crand.Reader
 	crand.Reader = &reader{c: mrand.NewChaCha8(k)}
-	return func() { crand.Reader = prev }
+	prevDebug, hadDebug := os.LookupEnv("GODEBUG")
+	godebug("tlsmlkem", "0")
+	godebug("randseednop", "0")
+	mrand1.Seed(int64(seed) + 1)
+	return func() {
+		crand.Reader = prev
+		// later runs of the process that do not install simrand keep Go's defaults (the hybrid key share in particular)
+		if hadDebug {
+			os.Setenv("GODEBUG", prevDebug)
+		} else {
+			os.Unsetenv("GODEBUG")
+		}
+	}
+}
+
+// godebug sets one GODEBUG setting for the process (the runtime notifies internal/godebug of changes of the variable).
+func godebug(key, val string) {
+	cur := os.Getenv("GODEBUG")
+	for _, kv := range strings.Split(cur, ",") {
+		if kv == key+"="+val {
+			return
+		}
+	}
+	if cur != "" {
+		cur += ","
+	}
+	os.Setenv("GODEBUG", cur+key+"="+val)
 }
 
 var _ io.Reader = (*reader)(nil)
